@@ -76,10 +76,11 @@ func runContainer(c Case, tr *Tracer) {
 		case "ser":
 			var out []byte
 			var pan bool
+			// (the set is logged before it is written out: printing is an observation)
 			if kd == "smpp" {
-				pan = guard(func() { out = t.Bytes() })
+				pan = guard(func() { _ = t.String(); out = t.Bytes() })
 			} else {
-				pan = guard(func() { out = o.Serialize() })
+				pan = guard(func() { _ = o.String(); out = o.Serialize() })
 			}
 			tr.emit(Ev{"ev": "Ser", "kind": kd, "out": B(out), "panic": pan, "site": kd + ".serialize"})
 		case "len":
